@@ -35,6 +35,14 @@ CONTEXTS = {
     "lambda-body": lambda c: app(lam([], None, c), []),
     "named-let": lambda c: named_let(fresh("nl"), [(fresh("tl"), I(1))], c),
     "do-result": lambda c: do_loop(fresh("dj"), I(0), I(1), B(True), c, VOID),
+    # R7RS 3.5 also makes these tail contexts: the receiver of `=>` in cond / case, the bodies of let-values / let*-values /
+    # case-lambda clauses, the consumer of call-with-values, define-values bodies
+    "cond-arrow": lambda c: (lambda t: N(["app", ["lam", [t], "", c.core], [["const", ["i", 1]]]], "(cond (1 => (lambda (%s) %s)) (else 0))" % (t, c.scm)))(fresh("tl")),
+    "case-arrow-else": lambda c: (lambda t: N(["app", ["lam", [t], "", c.core], [["const", ["i", 9]]]], "(case 9 ((1 2) 0) (else => (lambda (%s) %s)))" % (t, c.scm)))(fresh("tl")),
+    "let-values": lambda c: cg.let_values([([fresh("tl"), fresh("tl")], None, cg.values(I(1), I(2))), ([], fresh("tl"), cg.values(I(3)))], c),
+    "let*-values": lambda c: cg.let_values([([fresh("tl")], fresh("tl"), cg.values(I(1), I(2)))], c, True),
+    "cwv-consumer": lambda c: cg.cwv(cg.thunk(cg.values(I(1), I(2))), lam([fresh("tl"), fresh("tl")], None, c)),
+    "case-lambda-body": lambda c: app(cg.case_lambda([([fresh("tl")], None, I(0)), ([], None, c)]), []),
     "internal-define": lambda c: app(lam_body([], None, body_with_defines([(fresh("idf"), I(1))], [c])), []),
 }
 
